@@ -41,6 +41,8 @@ HASH_FUNCS = [
     "bytes_repr_seq",
     "bytes_repr_set",
     "bytes_repr_code",
+    "bytes_repr_partial",
+    "bytes_repr_method",
     "bytes_repr_function",
     "bytes_repr_mapping_contents",
     "bytes_repr_sequence_contents",
@@ -196,6 +198,10 @@ def extract(repo=None) -> dict:
     L["setClose"] = bconst(hf["bytes_repr_set"], 2)
     L["codeOpen"] = bconst(hf["bytes_repr_code"], 0)
     L["codeClose"] = bconst(hf["bytes_repr_code"], 2)
+    L["partialOpen"] = bconst(hf["bytes_repr_partial"], 0)
+    L["partialClose"] = bconst(hf["bytes_repr_partial"], 2)
+    L["methodOpen"] = bconst(hf["bytes_repr_method"], 0)
+    L["methodClose"] = bconst(hf["bytes_repr_method"], 2)
     fy = yields_in_order(hf["bytes_repr_function"])
     L["funcOpen"] = bconst(hf["bytes_repr_function"], 0)
     L["funcClose"] = bconst(hf["bytes_repr_function"], len(fy) - 1)
